@@ -2,6 +2,7 @@ package main
 
 import (
 	"fmt"
+	"go/constant"
 	"go/token"
 	"go/types"
 	"sort"
@@ -301,6 +302,24 @@ func derefsIn(p *Program, f *ssa.Function) []derefFinding {
 			if b, ok := x.X.Type().Underlying().(*types.Basic); !ok || b.Info()&types.IsString == 0 {
 				return
 			}
+			// a constant string cut at a bound computed at run time: the bound must
+			// have been compared with something (a constant, a length) on the way
+			if cs, isConst := x.X.(*ssa.Const); isConst && cs.Value != nil {
+				for _, bound := range []ssa.Value{x.High, x.Low} {
+					if bound == nil {
+						continue
+					}
+					if _, isK := constInt(bound); isK {
+						continue
+					}
+					if !boundCompared(f, bound, x) {
+						out = append(out, derefFinding{f, x, "const-slice",
+							fmt.Sprintf("a constant string of %d bytes is cut at %s, a bound computed at run time that is never compared with its length: a larger value panics", len(constant.StringVal(cs.Value)), exprKeyShort(bound))})
+						return
+					}
+				}
+				return
+			}
 			var k int64
 			if x.High != nil {
 				if kk, ok := constInt(x.High); ok {
@@ -371,6 +390,21 @@ func riskySliceSource(v ssa.Value) (string, bool) {
 		if own, fld, _, ok := loadedField(x); ok && own != nil && own.Obj().Pkg() != nil && own.Obj().Pkg().Path() == repoMod+"/pkg/sysl" {
 			if fld == "Path" || fld == "Part" {
 				return own.Obj().Name() + "." + fld, true
+			}
+		}
+	case *ssa.Phi:
+		// a list that starts empty and is filled in a loop: as long as the data
+		// it is filled from, possibly empty
+		for _, e := range x.Edges {
+			switch y := e.(type) {
+			case *ssa.MakeSlice:
+				if k, ok := constInt(y.Len); ok && k == 0 {
+					return "a list that starts empty and is filled in a loop", true
+				}
+			case *ssa.Const:
+				if y.Value == nil {
+					return "a list that starts nil and is filled in a loop", true
+				}
 			}
 		}
 	case *ssa.Call:
@@ -907,7 +941,7 @@ func ignoredFoundFlags(p *Program, f *ssa.Function) []ssa.Instruction {
 		sawT, sawF := false, false
 		for _, b := range sc.Blocks {
 			if ret, ok := b.Instrs[len(b.Instrs)-1].(*ssa.Return); ok && len(ret.Results) == 2 {
-				if cv, ok := ret.Results[1].(*ssa.Const); ok && cv.Value != nil {
+				if cv, ok := retVal(ret, 1).(*ssa.Const); ok && cv.Value != nil {
 					if cv.Value.String() == "true" {
 						sawT = true
 					} else if cv.Value.String() == "false" {
@@ -937,4 +971,31 @@ func ignoredFoundFlags(p *Program, f *ssa.Function) []ssa.Instruction {
 		}
 	})
 	return out
+}
+
+// boundCompared: some comparison of the bound (the same access path) with a
+// constant or a len() dominates the use on the outcome that leads to it.
+func boundCompared(f *ssa.Function, bound ssa.Value, use ssa.Instruction) bool {
+	key := exprKey(bound, 0)
+	found := false
+	eachInstr(f, func(_ *ssa.BasicBlock, i ssa.Instruction) {
+		bin, ok := i.(*ssa.BinOp)
+		if !ok || found {
+			return
+		}
+		switch bin.Op {
+		case token.LSS, token.LEQ, token.GTR, token.GEQ:
+		default:
+			return
+		}
+		if exprKey(bin.X, 0) != key && exprKey(bin.Y, 0) != key {
+			return
+		}
+		for _, br := range branchesOn(bin) {
+			if br.TrueSucc.Dominates(use.Block()) || br.FalseSucc.Dominates(use.Block()) || br.TrueSucc == use.Block() || br.FalseSucc == use.Block() {
+				found = true
+			}
+		}
+	})
+	return found
 }
